@@ -44,10 +44,13 @@ inductive Lay : LoopK → Nat → List Flow → List Instr → Exit → Prop
   /-- an effect instruction: one event -/
   | eff {K : LoopK} {n : Nat} {fl : List Flow} {c : List Instr} {e : Exit} (i : Instr)
       (hs : i.straight = true) (he : i.isEffect = true) : Lay K (n + 1) fl c e → Lay K n (.ev n :: fl) (i :: c) e
-  /-- a return instruction ends the list; what follows is never executed -/
-  | ret (K : LoopK) (n : Nat) (i : Instr) (c : List Instr) (e : Exit) (hr : i.isRet = true) : Lay K n [.ret n] (i :: c) e
-  | brk (n : Nat) (lb le : Name) (c : List Instr) (e : Exit) : Lay (some (lb, le, true)) n [.brk] (.jumpTo le :: c) e
-  | cont (n : Nat) (lb le : Name) (b : Bool) (c : List Instr) (e : Exit) : Lay (some (lb, le, b)) n [.cont] (.jumpTo lb :: c) e
+  /-- a return instruction ends the run; what follows (flows and code) is never executed -/
+  | ret (K : LoopK) (n : Nat) (fl : List Flow) (i : Instr) (c : List Instr) (e : Exit) (hr : i.isRet = true) :
+      Lay K n (.ret n :: fl) (i :: c) e
+  | brk (n : Nat) (fl : List Flow) (lb le : Name) (c : List Instr) (e : Exit) :
+      Lay (some (lb, le, true)) n (.brk :: fl) (.jumpTo le :: c) e
+  | cont (n : Nat) (fl : List Flow) (lb le : Name) (b : Bool) (c : List Instr) (e : Exit) :
+      Lay (some (lb, le, b)) n (.cont :: fl) (.jumpTo lb :: c) e
   /-- the jump that ends an if / else body -/
   | jmp (K : LoopK) (n : Nat) (l : Name) (c : List Instr) : Lay K n [] (.jumpTo l :: c) (.jump l)
   /-- code after an exit by jump is dead -/
